@@ -525,16 +525,21 @@ func C18(t Tier) int {
 		names := []string{"a", "b", "ab", "ac", "abc", "b-", "data-2023", "data-2024", "data-2124", "x.y", "x-y", "lab-results", "vitals"}
 		type rec struct{ owner, topic, key string }
 		want := map[string]rec{} // "<owner>/<topic>/<offset>" -> record key bytes
+		stored := 0              // topics actually created
 		for _, o := range []*world.Account{e.A, e.B} {
 			for _, n := range names {
 				msgs := []sdk.Msg{aoltypes.NewMsgCreateTopic(n, "", o.Bech), aoltypes.NewMsgAddWriter(n, "", "", o.Bech, o.Bech)}
 				for i := 0; i < 2; i++ {
-					k := fmt.Sprintf("%s|%s|%d", o.Name, n, i)
-					msgs = append(msgs, aoltypes.NewMsgAddRecordRequest(n, []byte(k), []byte("v"), o.Bech, o.Bech, ""))
-					want[fmt.Sprintf("%s/%s/%d", o.Bech, n, i)] = rec{o.Bech, n, k}
+					msgs = append(msgs, aoltypes.NewMsgAddRecordRequest(n, []byte(fmt.Sprintf("%s|%s|%d", o.Name, n, i)), []byte("v"), o.Bech, o.Bech, ""))
 				}
 				if res := w.Send(world.TxSpec{Msgs: msgs, Signers: []*world.Account{o}, Fee: aolFee, Gas: 3000000}); res.Code != 0 {
-					panic("C18 genesis-form setup: " + res.Log)
+					// every name of the menu is inside the documented charset and length: a tree that refuses one is reported, not crashed on
+					fail("genesis-form", "genesis-form:valid-name-refused", "the chain refused to create topic %q (a name the documented charset admits) with a writer and two records: %s", n, firstLineOf(res.Log))
+					continue
+				}
+				stored++
+				for i := 0; i < 2; i++ {
+					want[fmt.Sprintf("%s/%s/%d", o.Bech, n, i)] = rec{o.Bech, n, fmt.Sprintf("%s|%s|%d", o.Name, n, i)}
 				}
 			}
 		}
@@ -573,8 +578,8 @@ func C18(t Tier) int {
 					fail("genesis-form", "genesis-form:topic-key-undecodable", "exported topic key %q does not decode: %v", ks, err)
 				}
 			}
-			if len(ag.Topics) != 2*len(names) || len(ag.Writers) != 2*len(names) {
-				fail("genesis-form", "genesis-form:entries-missing", "the export holds %d topics and %d writers, the chain %d and %d", len(ag.Topics), len(ag.Writers), 2*len(names), 2*len(names))
+			if len(ag.Topics) != stored || len(ag.Writers) != stored {
+				fail("genesis-form", "genesis-form:entries-missing", "the export holds %d topics and %d writers, the chain %d and %d", len(ag.Topics), len(ag.Writers), stored, stored)
 			}
 			exportImportCheck(w, []*world.Account{e.A, e.B, e.W, e.F}, func(kind, sig, format string, a ...any) {
 				fail("genesis-form", "genesis-form:"+sig, format, a...)
